@@ -1483,18 +1483,36 @@ def unbounded_int_text_rule(repo, rep):
                                                'BaseException'}:
                 return True
         return False
+    def unbounded(e, tfuncs):
+        """int(text, 2|4|8|16|32), or a call of a function that returns
+        such a value"""
+        if not isinstance(e, ast.Call):
+            return False
+        d = dotted(e.func) or ''
+        if d == 'int' and len(e.args) == 2 and \
+                isinstance(e.args[1], ast.Constant) and \
+                e.args[1].value in (2, 4, 8, 16, 32):
+            return True
+        return d.split('.')[-1] in tfuncs and (
+            '.' not in d or d.split('.')[0] in ('self', 'cls'))
+    # functions of the module that hand such a value back to their caller
+    tfuncs = set()
+    for _ in range(3):
+        for f in m.all_funcs():
+            for r_ in walk_no_nested(f.node):
+                if isinstance(r_, ast.Return) and r_.value is not None and \
+                        unbounded(r_.value, tfuncs):
+                    tfuncs.add(f.name)
     n = 0
     for f in m.all_funcs():
         tainted = set()
         for a in walk_no_nested(f.node):
             if isinstance(a, ast.Assign) and len(a.targets) == 1 and \
                     isinstance(a.targets[0], ast.Name) and \
-                    isinstance(a.value, ast.Call) and \
-                    dotted(a.value.func) == 'int' and \
-                    len(a.value.args) == 2 and \
-                    isinstance(a.value.args[1], ast.Constant) and \
-                    a.value.args[1].value in (2, 4, 8, 16, 32):
+                    unbounded(a.value, tfuncs):
                 tainted.add(a.targets[0].id)
+        if f.name in tfuncs:
+            n += 1
         if not tainted:
             continue
         n += 1
